@@ -25,7 +25,7 @@ func init() {
 		Level: "exploration",
 		Rule: "sequential cases: random history A over schema K (indexes, fks, links, child stores) -> whole-file dump D_A -> snapshot by each route (Snapshot(path), SnapshotInTx inside a read transaction, StreamToWriter) -> further committed transactions -> restore (RestoreSnapshot / RestoreFromReader) -> " +
 			"dump must equal D_A except meta/snapshotId and meta/resetTimeline (exactly equal for the unmarked StreamToWriter route); GetSnapshotId equals the id Snapshot returned; every restore listener fired exactly once; the next GetTimelineId (default or initIfEmpty mode; the database started with a timeline id, without one, or was only asked in default mode) calls the id function exactly once and returns its value, " +
-			"the following two return the same value without calling it; the structural monitor is clean against the model of time A and the database accepts further transactions. " +
+			"the following two return the same value without calling it (in half of the cases a request whose id function fails comes first: it must return that error and leave the reset pending); the structural monitor is clean against the model of time A and the database accepts further transactions. " +
 			"concurrent cases (race detector): a mutator takes snapshots and restores them (hook sleeps of 0-3 ms between the persist / close / rename / reopen steps), 2 writers rewrite the whole database into stamped state(g), 6 readers verify in every read transaction that the entire content equals state(g) of one generation; " +
 			"all clients log call/return, and porcupine checks the history against a register model (write(g) sets, restore(g_s) sets to the snapshot's generation, read returns the current one). non-trivial = distinct (route, restore call, history digest) and reads overlapping a restore",
 		Assumptions: []string{"interleavings are sampled; Snapshot / RootBucket concurrently with a restore are not driven (recursive read lock behind a waiting writer can deadlock: liveness, outside the statement)",
@@ -50,7 +50,7 @@ func init() {
 		},
 		Promises: func(core.Tier) map[string][]string {
 			return map[string][]string{"route": {"Snapshot+RestoreSnapshot", "Snapshot+RestoreFromReader", "SnapshotInTx+RestoreSnapshot", "SnapshotInTx+RestoreFromReader", "StreamToWriter+RestoreSnapshot", "StreamToWriter+RestoreFromReader"},
-				"porcupine": {"ok"}, "timeline_after_restore": {"round 0, start initialised", "round 0, start never requested", "round 0, start default on empty", "round 1, start never requested"}}
+				"porcupine": {"ok"}, "timeline_after_restore": {"round 0, start initialised", "round 0, start never requested", "round 0, start default on empty", "round 1, start never requested", "failing id function first"}}
 		},
 		MinCounters: func(core.Tier) map[string]int64 {
 			return map[string]int64{"restores_sequential": 30, "reads_overlapping_a_restore": 20, "restores_concurrent": 30}
@@ -201,6 +201,16 @@ func c17Sequential(c *core.Ctx, idx int) {
 		}
 		if route != "StreamToWriter" {
 			calls0 := idCalls
+			// an id function that fails must not use up the reset: the request fails, the next one still gets a fresh id
+			if (idx/8+round)%2 == 1 {
+				failCalls := 0
+				got, ferr := db.GetTimelineId(boltz.TimelineModeDefault, func() (string, error) { failCalls++; return "never", fmt.Errorf("id source down") })
+				c.Eval()
+				c.Cover("timeline_after_restore", "failing id function first")
+				if ferr == nil || failCalls != 1 || got == "never" {
+					c.Violationf("C17 timeline id request with a failing id function", info, "returned %q err=%v, id function called %d times (expected one call and its error)", got, ferr, failCalls)
+				}
+			}
 			// the request after a restore and the ones following it, in either non-forcing mode
 			modes := []boltz.TimelineMode{boltz.TimelineModeDefault, boltz.TimelineModeInitIfEmpty}
 			m1, m2 := modes[(idx/2+round)%2], modes[(idx/4)%2]
